@@ -757,9 +757,12 @@ def cheap_state_check(w, circ=None, glist=None, what="state"):
     return None
 
 
-def record_check(w, circ=None, glist=None):
+def record_check(w, circ=None, glist=None, strict_perm=True):
     """circ.gates must be the gates that were applied (label, qubits,
-    controls, parameters, parametrize flag)."""
+    controls, parameters, parametrize flag).  ``strict_perm``: also compare
+    the recorded POSITIONS on the permutation tracking simulator (only done in
+    the table: in the histories that pervasive finding would stop every
+    history after the first non-trivial permutation from being expanded)."""
     gates = (w.circ if circ is None else circ).gates
     glist = w.glist if glist is None else glist
     if len(gates) != len(glist):
@@ -768,7 +771,7 @@ def record_check(w, circ=None, glist=None):
         label, params, qubits, controls, parametrize = r[:5]
         # the permutation tracking simulator records gates at the PHYSICAL
         # sites they were applied to (not asserted: only arity is compared)
-        perm = w.cls == "CircuitPermMPS"
+        perm = w.cls == "CircuitPermMPS" and not strict_perm
         if (tuple(g.qubits) != tuple(qubits) and not perm) or len(g.qubits) != len(qubits):
             return "gate %d recorded on qubits %r, applied on %r" % (i, g.qubits, qubits)
         if (tuple(g.controls or ()) != tuple(controls or ()) and not perm) or len(g.controls or ()) != len(controls or ()):
@@ -799,6 +802,8 @@ def make_sig(root, spec, gate=None, perm=False, query=None, flags=None, **extra)
     kind of gate, structural facts of the history), never from the failure
     text or from data values."""
     s = {"root": root, "cls": spec["cls"], "contract": str(contract_of(spec))}
+    if dict(spec.get("kw") or {}).get("tag_gate_numbers") is False:
+        s["tag_gate_numbers"] = False
     if gate is not None:
         s["gclass"] = gate_class(gate)
         s["nq"] = len(gate[2])
@@ -1036,6 +1041,8 @@ class C07Case(seq.Case):
                 ev.append(("equilibrate",))
         if w.orig is None:
             ev.append(("copy",))
+        else:
+            ev.append(("switch",))
         if w.nq_since < self.max_q:
             ev += [q for q in self.queries if q[0] != "uni" or cls != "Circuit" or all_wires_touched(w.glist, w.N)]
         return ev
@@ -1109,9 +1116,19 @@ class C07Case(seq.Case):
             return None
         if k == "copy":
             new = c.copy()
-            w.orig = (c, [list(g) for g in w.glist])
+            # BOTH circuits stay alive: the focus moves to the copy, the other
+            # one keeps its own record (gates, named parameters)
+            w.orig = [c, [list(g) for g in w.glist], None if w.named is None else {"vals": dict(w.named["vals"]), "exprs": dict(w.named["exprs"])}]
             w.circ = new
             w.flags["fresh_copy"] = True
+            return None
+        if k == "switch":
+            # address the following events to the OTHER of the two circuits
+            oc, og, on = w.orig
+            w.orig = [w.circ, w.glist, w.named]
+            w.circ, w.glist, w.named = oc, og, on
+            w.flags["fresh_copy"] = False
+            w.nq_since = 0
             return None
         # queries
         if k == "lexp" and (e[2] == "dtype" or dict(self.spec.get("kw") or {}).get("convert_eager") is False) and w.cls in MPS_CLASSES:
@@ -1160,33 +1177,46 @@ class C07Case(seq.Case):
             msg, _ = obs
             if msg:
                 probs.append(core.problem("%s after %d gates: %s" % (spec_name(self.spec), len(w.glist), msg), **self._sig(w, e, "query-disagrees-with-state")))
-            return probs
-        # mutators, copy, equilibrate: gate record + state through the cheapest
-        # exact read-out (the world is discarded afterwards)
-        m = record_check(w)
-        if m:
-            probs.append(core.problem("%s: %s" % (spec_name(self.spec), m), **self._sig(w, e, "gate-record-wrong")))
-        try:
-            m = cheap_state_check(w, what="after %s" % (e[0],))
-        except Exception as ex:  # reading the state crashed
-            m = "reading the state after %r raised %s: %s" % (e[:2], type(ex).__name__, str(ex)[:120])
-        if m:
-            probs.append(core.problem("%s: %s" % (spec_name(self.spec), m), **self._sig(w, e, "wrong-state-after-" + ("gate" if e[0] == "gate" else e[0]), perm_pre=getattr(w, "_perm_pre", w.perm_nontrivial()))))
-        if w.orig is not None and not probs:
+        else:
+            # mutators, copy, switch, equilibrate: gate record + state through
+            # the cheapest exact read-out (the world is discarded afterwards)
+            m = record_check(w)
+            if m:
+                probs.append(core.problem("%s: %s" % (spec_name(self.spec), m), **self._sig(w, e, "gate-record-wrong")))
             try:
-                what = "ORIGINAL of copy() after %s on the copy" % (e[0],)
-                m = record_check(w, circ=w.orig[0], glist=w.orig[1])
+                m = cheap_state_check(w, what="after %s" % (e[0],))
+            except Exception as ex:  # reading the state crashed
+                m = "reading the state after %r raised %s: %s" % (e[:2], type(ex).__name__, str(ex)[:120])
+            if m:
+                probs.append(core.problem("%s: %s" % (spec_name(self.spec), m), **self._sig(w, e, "wrong-state-after-" + ("gate" if e[0] == "gate" else e[0]), perm_pre=getattr(w, "_perm_pre", w.perm_nontrivial()))))
+        if w.orig is not None and not probs:
+            # the OTHER circuit of a copy() pair must not have noticed: after
+            # EVERY event (queries too - they move canonical centres and fill
+            # caches) its record, its state and its record-dependent routes
+            # are compared with ITS OWN reference
+            oc, og = w.orig[0], w.orig[1]
+            try:
+                what = "the OTHER circuit of the copy() pair after %s on this one" % (e[0],)
+                opsi = w.ref(og)
+                m = record_check(w, circ=oc, glist=og)
                 m = m and what + ": " + m
-                m = m or cheap_state_check(w, circ=w.orig[0], glist=w.orig[1], what=what)
+                m = m or cheap_state_check(w, circ=oc, glist=og, what=what)
                 if m is None and w.cls not in SU_CLASSES and not w.flags["lexp_on_copy"]:
-                    # a light-cone / canonical-centre route of the original
-                    # (not after a local_expectation on a converted copy: the
-                    # original's centre record is then already stale - that is
-                    # the finding reported where the QUERY is wrong)
-                    m, _ = run_query(w, ("lexp", (w.N - 1, 0), None), circ=w.orig[0], psi=w.ref(w.orig[1]))
-                    m = m and what + ": " + m
+                    # light-cone / canonical-centre routes (not after a
+                    # local_expectation on a converted copy: the centre record
+                    # is then already stale - that is the finding reported
+                    # where the QUERY is wrong)
+                    qs = [("lexp", (w.N - 1, 0), None)]
+                    if w.cls in MPS_CLASSES:
+                        # one-site expectations trust the recorded centre most
+                        qs = [("lexp", (q,), None) for q in (1, 0, w.N - 1)] + [("fidelity",)] + qs
+                    for q in qs:
+                        m, _ = run_query(w, q, circ=oc, psi=opsi)
+                        if m:
+                            m = what + ": " + m
+                            break
             except Exception as ex:
-                m = "reading the original after %r on the copy raised %s: %s" % (e[:2], type(ex).__name__, str(ex)[:120])
+                m = "reading the other circuit after %r raised %s: %s" % (e[:2], type(ex).__name__, str(ex)[:120])
             if m:
                 probs.append(core.problem("%s: %s" % (spec_name(self.spec), m), **self._sig(w, e, "copy-not-independent")))
         return probs
@@ -1269,7 +1299,62 @@ def g_cell(cell, common):
     label = cell["label"]
     part = cell["part"]
     out = []
+    if part == "rawgate":
+        # the Gate object of a raw gate supports the same object protocol
+        k = int(label[3:])
+        U = raw_matrix(label)
+        g = QG.Gate.from_raw(U, tuple(range(k))[::-1])
+        for what, fn in (("copy()", lambda: g.copy()), ("copy_with(qubits=...)", lambda: g.copy_with(qubits=tuple(range(k))))):
+            try:
+                h = fn()
+                okk = np.allclose(np.asarray(h.array), U) and len(h.qubits) == k and not h.controls
+            except Exception as ex:
+                return table.bad(core.problem("Gate.from_raw(U, ...).%s raised %s: %s" % (what, type(ex).__name__, str(ex)[:100]), root="raw-gate-object", entry=what.split("(")[0]), sub=part)
+            if not okk:
+                return table.bad(core.problem("Gate.from_raw(U, ...).%s lost the array / qubits" % what, root="raw-gate-object", entry=what.split("(")[0]), sub=part)
+        return table.ok(key=("rawgate", label), nontrivial=True, outcome="rawgate", evals=2, sub=part)
     nq, npar, _ = tb.TEXTBOOK[label]
+    if part == "shared":
+        # ONE parametrised Gate object applied to two circuits: updating the
+        # parameters of one circuit must not change the other ('queries depend
+        # only on the gates applied and parameters set so far' - of THAT circuit)
+        N = 3
+        p = default_params(label)
+        p2 = tuple(x + 0.9 for x in p)
+        qubits = tuple(range(nq))[::-1] if nq > 1 else (1,)
+        psi_old = tb.apply(psi0_vector(None, N), tb.textbook(label, p), qubits, N)
+        psi_new = tb.apply(psi0_vector(None, N), tb.textbook(label, p2), qubits, N)
+        n = 0
+        for how in ("apply_gate(Gate)", "from_gates(circ.gates)"):
+            for upd in ("set_params", "update_params_from"):
+                try:
+                    c1 = qtn.Circuit(N)
+                    if how == "apply_gate(Gate)":
+                        gobj = QG.Gate(label, list(p), qubits=qubits, parametrize=True)
+                        c1.apply_gate(gobj)
+                        c2 = qtn.Circuit(N)
+                        c2.apply_gate(gobj)
+                    else:
+                        c1.apply_gate(label, *p, *qubits, parametrize=True)
+                        c2 = qtn.Circuit.from_gates(c1.gates, N=N)
+                    if upd == "set_params":
+                        c1.set_params({0: np.array(p2)})
+                    else:
+                        tn = c1.psi
+                        tn[c1.gate_tag(0)].params = np.array(p2)
+                        c1.update_params_from(tn)
+                    m = _cmp("updated circuit to_dense", _vec(c1.to_dense()), psi_new, TOL)
+                    m2 = _cmp("OTHER circuit to_dense", _vec(c2.to_dense()), psi_old, TOL)
+                    gp = np.asarray(c2.get_params()[0], dtype=float).reshape(-1)
+                    m3 = None if np.allclose(gp, p) else "OTHER circuit get_params() = %r, its gates were applied with %r" % (gp.tolist(), list(p))
+                except Exception as ex:
+                    return table.bad(core.problem("%s shared via %s, %s raised %s: %s" % (label, how, upd, type(ex).__name__, str(ex)[:100]), root="shared-gate-object-crash", entry=upd), sub=part)
+                if m:
+                    return table.bad(core.problem("%s via %s, %s: %s" % (label, how, upd, m), root="parameter-update-wrong", entry=upd), sub=part)
+                if m2 or m3:
+                    return table.bad(core.problem("one parametrised Gate(%s) object applied to two circuits (%s); %s on the first changed the second: %s" % (label, how, upd, m2 or m3), root="shared-parametrized-gate-object", entry=upd), sub=part)
+                n += 1
+        return table.ok(key=("shared", label), nontrivial=True, outcome="shared-gate-object", evals=n, sub=part)
     if QG.GATE_SIZE[label] != nq:
         return table.bad(core.problem("GATE_SIZE[%s]=%d, textbook %d" % (label, QG.GATE_SIZE[label], nq), root="gate-size", gate=label))
     if part == "matrix":
@@ -1451,7 +1536,7 @@ def t_cell(cell, common):
         return table.rejected("%s:%s:%s:%dq:c%d:%s" % (spec["cls"], contract_of(spec), "special" if label in ("SWAP", "IDEN") else ("param" if g[4] else "plain"), len(g[2]), len(g[3] or ()), type(ex).__name__))
     w.glist.append([g[0], list(g[1]), g[2], g[3], g[4]])
     probs = []
-    m = record_check(w)
+    m = record_check(w, strict_perm=True)
     if m:
         probs.append(core.problem("%s: %s" % (name, m), **sig("gate-record-wrong")))
     # queries BEFORE to_dense: the light-cone routes must not profit from a
@@ -1515,6 +1600,7 @@ def sim_specs(N, tier):
     add("Circuit", {"gate_contract": "split-gate"})
     add("Circuit", {"gate_contract": "swap-split-gate"})
     add("Circuit", {"gate_contract": False})
+    add("Circuit", {"tag_gate_numbers": False})
     add("Circuit", psi0="bits:%s" % ("101" + "1" * (N - 3)))
     add("Circuit", psi0="ent")
     add("CircuitDense")
@@ -1742,8 +1828,10 @@ def run(ctx):
 
     if "G" in parts:
         cells = [{"label": l, "part": p} for l in labels for p in ("matrix", "mpo", "spelling")]
+        cells += [{"label": l, "part": "shared"} for l in labels if tb.TEXTBOOK[l][1]]
+        cells += [{"label": "RAW%d" % k, "part": "rawgate"} for k in (1, 2, 3)]
         table.run(ctx, "g_cell", cells, name="G:label x {matrix grid, build_mpo placements x controls, spellings}", chunk=2)
-        ctx.subproducts.append("G: %d labels x {matrix on parameter grid, build_mpo on all ordered placements x {0,1,2} ordered controls (N=4), 7 spellings} complete" % len(labels))
+        ctx.subproducts.append("G: %d labels x {matrix on parameter grid, build_mpo on all ordered placements x {0,1,2} ordered controls (N=4), 7 spellings} complete; every parametrised label: one Gate object shared by two circuits x {apply_gate, from_gates} x {set_params, update_params_from}; raw Gate objects: copy / copy_with" % len(labels))
 
     if "T" in parts:
         cells = t_cells(Nt, tier, specs)
